@@ -106,16 +106,19 @@ pub(crate) fn unbond(
             BOND.save(deps.storage, (&info.sender, &denom), &unbond)?;
         }
 
-        // record the unbonding
-        UNBOND.save(
-            deps.storage,
-            (&info.sender, &denom, timestamp.nanos()),
-            &Bond {
-                asset: asset.clone(),
-                weight: Uint128::zero(),
-                timestamp,
+        // record the unbonding. Records are keyed by the block timestamp, so a second unbonding of
+        // the same denom in the same block is added to the existing record instead of replacing it
+        let unbond_key = (&info.sender, denom.as_str(), timestamp.nanos());
+        let mut unbonding = UNBOND.may_load(deps.storage, unbond_key)?.unwrap_or(Bond {
+            asset: Asset {
+                info: asset.info.clone(),
+                amount: Uint128::zero(),
             },
-        )?;
+            weight: Uint128::zero(),
+            timestamp,
+        });
+        unbonding.asset.amount = unbonding.asset.amount.checked_add(asset.amount)?;
+        UNBOND.save(deps.storage, unbond_key, &unbonding)?;
 
         // update global values
         let mut global_index = GLOBAL.may_load(deps.storage)?.unwrap_or_default();
